@@ -31,6 +31,8 @@ SITES = {
     "CA": ("sc", "sc.always"), "CE": ("sc", None), "I": (None, "inst1"), "J": (None, "inst2"),
     # R: context declared with the core API cohdl.sequential_context (no implicit reset_pushed write)
     "R": ("sr", "sr"),
+    # RE: same raw context, statement placed in the `else:` branch of its `if cohdl.rising_edge(clk):`
+    "RE": ("sr", "sr"),
     # II: ONE instance whose two output ports are both connected to the object (two drivers)
     "II": (None, "inst3.y1+inst3.y2"),
 }
@@ -56,6 +58,7 @@ def accesses_for(obj):
 
 def expected_reject(obj, accs):
     """weakest reading of the statement; returns (must_reject: bool, reason)"""
+    obj = obj.split("~")[0]
     drivers = {}
     ctxs = set()
     for site, kind in accs:
@@ -101,8 +104,11 @@ def stmt(obj_expr, kind, n, obj):
 
 
 def render(obj, accs):
+    # "<obj>~same": every context function of the design has the same name (`logic`)
+    same = obj.endswith("~same")
+    obj = obj.split("~")[0]
     ox = {"sig": "x", "out": "self.xout", "inp": "self.xin", "var": "x", "tmp": "x"}[obj]
-    body = {"ca": [], "cb": [], "sc": [], "sd": [], "ck": [], "sc.always": [], "sr": []}
+    body = {"ca": [], "cb": [], "sc": [], "sd": [], "ck": [], "sc.always": [], "sr": [], "sr.else": []}
     inst = []
     for n, (site, kind) in enumerate(accs):
         if site in ("I", "J"):
@@ -113,6 +119,8 @@ def render(obj, accs):
             body["sc.always"].append(stmt(ox, kind, n, obj))
         elif site == "CE":
             body["sc"].append(f"self.o{n} <<= cohdl.always({ox} | self.i)")
+        elif site == "RE":
+            body["sr.else"].append(stmt(ox, kind, n, obj))
         else:
             body[SITES[site][0]].append(stmt(ox, kind, n, obj))
     L = ["from cohdl import std, Entity, Port, Bit, BitVector, Unsigned, Signal, Variable", "import cohdl", "",
@@ -135,7 +143,7 @@ def render(obj, accs):
     L += inst
 
     def ctx(deco, name, lines, extra=None):
-        out = [f"        {deco}", f"        def {name}():"]
+        out = [f"        {deco}", f"        def {'logic' if same else name}():"]
         alll = lines + (extra or [])
         if obj in ("sig", "var") and any(l.startswith("x <<=") or l.startswith("x ^=") or l.startswith("x @=") for l in alll):
             out.append("            nonlocal x")
@@ -158,12 +166,13 @@ def render(obj, accs):
         L += ctx("@std.sequential(std.Clock(self.clk))", "sc", body["sc"], body["sc.always"])
     if body["sd"]:
         L += ctx("@std.sequential(std.Clock(self.clk))", "sd", body["sd"])
-    if body["sr"]:
-        raw = ctx("@cohdl.sequential_context", "sr", body["sr"])
+    if body["sr"] or body["sr.else"]:
+        raw = ctx("@cohdl.sequential_context", "sr", body["sr"] + body["sr.else"])
         # wrap the statements in an explicit clock-edge test
         head = [l for l in raw if l.strip().startswith(("@", "def ", "nonlocal"))]
-        rest = [l for l in raw if l not in head]
-        L += head + ["            if cohdl.rising_edge(self.clk):"] + ["    " + l for l in rest]
+        L += head + ["            if cohdl.rising_edge(self.clk):"] + ["                " + l for l in (body["sr"] or ["pass"])]
+        if body["sr.else"]:
+            L += ["            else:"] + ["                " + l for l in body["sr.else"]]
     if body["ck"]:
         L += ["        @std.block", "        def blk():"]
         L += ["    " + l for l in ctx("@std.concurrent", "ck", body["ck"])]
@@ -267,6 +276,12 @@ def family(run):
             yield obj, (a,)
         for a, b in itertools.combinations_with_replacement(acc, 2):
             yield obj, (a, b)
+    # the same placements with every context function named `logic` (writer pairs only)
+    for obj in ("sig", "out", "inp"):
+        acc = [a for a in accesses_for(obj) if a[1] != "r" and a[0] not in ("I", "J", "II", "CE")]
+        for a, b in itertools.combinations_with_replacement(acc, 2):
+            if SITES[a[0]][0] != SITES[b[0]][0]:
+                yield obj + "~same", (a, b)
     if run.thorough:
         for obj in ("sig", "out", "inp", "var"):
             kinds = ("w", "w0", "w1", "wdyn", "r", "push") if obj in ("sig", "out") else ("w", "w0", "r", "push")
